@@ -5,6 +5,8 @@ import os.path
 from collections.abc import Sequence
 from typing import IO, Self
 
+from pymap.exceptions import NotSupportedError
+
 from .io import FileWriteable
 
 __all__ = ['Subscriptions']
@@ -32,7 +34,15 @@ class Subscriptions(FileWriteable):
         return list(self._subscribed.keys())
 
     def add(self, folder: str) -> None:
-        """Add a new folder to the subscriptions."""
+        """Add a new folder to the subscriptions.
+
+        Raises:
+            :class:`~pymap.exceptions.NotSupportedError`: The folder name has
+                a line break, the file holds one name per line.
+
+        """
+        if '\n' in folder or '\r' in folder:
+            raise NotSupportedError('Invalid mailbox name.')
         self._subscribed[folder] = None
         self.touch()
 
